@@ -106,46 +106,46 @@ func (e *Encoder) WriteData(data interface{}) (int, error) {
 
 	switch v.Kind() {
 	case reflect.Bool:
-		value := data.(bool)
+		value := v.Bool()
 		return e.writeBoolean(value)
 	case reflect.String:
-		value := data.(string)
+		value := v.String()
 		return e.writeString(value)
 	case reflect.Int8: // as int
-		value := int32(data.(int8))
+		value := int32(v.Int())
 		return e.writeInt(value)
 	case reflect.Int16: // as int
-		value := int32(data.(int16))
+		value := int32(v.Int())
 		return e.writeInt(value)
 	case reflect.Int32: // as int
-		value := data.(int32)
+		value := int32(v.Int())
 		return e.writeInt(value)
 	case reflect.Int: // as int
-		value := int32(data.(int))
+		value := int32(v.Int())
 		return e.writeInt(value)
 	case reflect.Uint8: // as int
-		value := int32(data.(uint8))
+		value := int32(v.Uint())
 		return e.writeInt(value)
 	case reflect.Uint16: // as int
-		value := int32(data.(uint16))
+		value := int32(v.Uint())
 		return e.writeInt(value)
 	case reflect.Int64: // as long
-		value := data.(int64)
+		value := v.Int()
 		return e.writeLong(value)
 	case reflect.Uint: // as long
-		value := int64(data.(uint))
+		value := int64(v.Uint())
 		return e.writeLong(value)
 	case reflect.Uint32: // as long
-		value := int64(data.(uint32))
+		value := int64(v.Uint())
 		return e.writeLong(value)
 	case reflect.Uint64: // as long
-		value := int64(data.(uint64))
+		value := int64(v.Uint())
 		return e.writeLong(value)
 	case reflect.Float32:
-		value := data.(float32)
-		return e.writeDouble(float64(value))
+		value := v.Float()
+		return e.writeDouble(value)
 	case reflect.Float64:
-		value := data.(float64)
+		value := v.Float()
 		return e.writeDouble(value)
 	case reflect.Slice, reflect.Array:
 		return e.writeList(source)
